@@ -171,6 +171,7 @@ type caseRun struct {
 	// the receiver (don't-care, counted only).
 	errCalls, softDiffs int64
 	quick               bool
+	benignBy            map[string]int64
 }
 
 // undefinedOnError reports whether the receiver contents are undefined after
@@ -456,6 +457,23 @@ func (c *caseRun) pair(ov *view, trans, ident bool, fv int) {
 		return
 	}
 	if r == relOverlap {
+		key := tm.method + "/" + tm.pos + ":" + kindName[ov.k]
+		if trans {
+			key += "T"
+		}
+		if benignAllow != nil && !benignAllow[key] {
+			// An undetected overlap that happens to be value-correct is accepted
+			// only for the (method, position, operand kind) combinations where the
+			// reference tree behaves so (benign_allow.go); anywhere else the
+			// overlap check that used to panic has been lost.
+			c.counts[r][outBad]++
+			c.fail("overlap-not-detected", ov, trans, ident, fv, r, "returned without the region panic (result value-correct, operand overwritten inside the receiver window); this combination panics on the reference tree")
+			return
+		}
+		if c.benignBy == nil {
+			c.benignBy = map[string]int64{}
+		}
+		c.benignBy[key]++
 		c.counts[r][outBenign]++
 		return
 	}
@@ -519,8 +537,8 @@ func (c *caseRun) finish() {
 			}
 		}
 	}
-	if n := c.counts[relOverlap][outBenign]; n > 0 {
-		t.Count("undetected-but-correct/"+tm.method+"/"+tm.pos, n)
+	for _, k := range vlib.SortedKeys(c.benignBy) {
+		t.Count("undetected-but-correct/"+k, c.benignBy[k])
 	}
 	for _, cls := range vlib.SortedKeys(c.perCls) {
 		t.Count("V:"+cls, int64(c.perCls[cls]))
